@@ -666,10 +666,12 @@ pub fn build_default_config(conf: &crate::config::Config, request: &DHCPRequest)
                 use crate::config::Match as _;
                 use crate::config::PrefixOps as _;
                 let subnet = erbium_net::Ipv4Subnet::new(p4.network(), p4.prefixlen).ok()?;
+                /* Every host address: all but the first (network) and last (broadcast). */
+                let last_host = (1_u64 << (32 - u32::from(p4.prefixlen))).saturating_sub(2) as u32;
                 let mut ret = config::Policy {
                     match_subnet: Some(subnet),
                     apply_address: Some(
-                        (1..((1 << (32 - p4.prefixlen)) - 2))
+                        (1..=last_host)
                             .map(|offset| (u32::from(subnet.network()) + offset).into())
                             // TODO: This removes one IP from the list, it should also remove any
                             // others found on the local machine.  Probably fine for now, but
